@@ -20,7 +20,23 @@ def _check(case):
         return []
     exp_tau = s / math.sqrt(d1 * d2)
     if abs(abs(exp_tau) - 1.0) < 1e-12:
-        return []
+        # perfectly (anti-)monotone columns: the calibration clauses are those of C10 (theta = inf or astronomically large); what
+        # C11 itself promises still holds - an instance of one of the three families comes back, Frank for tau = -1, carrying the
+        # Kendall tau, and the same one on a second call
+        try:
+            c1 = select_copula(X.copy())
+            c2 = select_copula(X.copy())
+        except Exception as ex:
+            return [('raised-' + type(ex).__name__, 'tau=%r' % exp_tau)]
+        probs = []
+        fam = getattr(getattr(c1, 'copula_type', None), 'name', None)
+        if fam not in ('FRANK', 'CLAYTON', 'GUMBEL') or (exp_tau < 0 and fam != 'FRANK'):
+            probs.append(('family-not-a-candidate', 'returned %s at tau=%r' % (fam, exp_tau)))
+        elif abs(float(c1.tau) - exp_tau) > 1e-12:
+            probs.append(('tau-is-not-kendall-tau', 'got %r expected %r' % (float(c1.tau), exp_tau)))
+        elif c2.copula_type != c1.copula_type:
+            probs.append(('not-deterministic:second-call', '%s vs %s' % (fam, c2.copula_type.name)))
+        return probs
     probs = []
     try:
         np.random.seed(1)
